@@ -1,6 +1,7 @@
 """C04 - inbound payments are claimable only if complete and authentic; all-or-nothing (structural part)."""
 import collections
 from engine import *
+import linforms
 import obligations
 import ordimpls
 import provenance
@@ -466,3 +467,4 @@ def r04n(F):
 
 RULES.append(('04.n', 'payment-secret expiry: the array the expiry is decoded from has its custom-CLTV-delta bytes masked to zero, the amount array does not (data-flow rule on inbound_payment::verify)', r04n))
 RULES.append(('04.N', 'arithmetic census: per reviewed function the set of operation kinds (group: add/sub, mul, div, rem, shift, bit, min, max, div_ceil ...; flavour: plain / checked / saturating / wrapping) keeps its kinds: no reviewed function lost or gained a kind of arithmetic altogether - a rounding direction (`/` for div_ceil), saturating for checked, min for max (rules/arith.py; counts and value arithmetic itself are not judged)', lambda F: arith.for_property(F, 'C04', '04.N')))
+RULES.append(('04.K', 'constant census of linear forms: every comparison (normalised to sum >= K over name-free atoms, a comparison and its negation being one form) and every maximal arithmetic expression of a reviewed function keeps its coefficients and its constant - a dropped or added `+ 1` / `- 1`, `<` for `<=` inside a computed bound, a scale factor applied twice or not at all, swapped operands of a comparison (rules/linforms.py; shapes that appear or disappear are not judged, the guard / arithmetic censuses judge those)', lambda F: linforms.for_property(F, 'C04', '04.K')))
